@@ -5,6 +5,8 @@ that avoids the cache file's ancestors, query paths avoid the masked directories
 callees have a larger index than their caller (DAG), and external mutations never touch the cache
 path or its ancestors.
 """
+import os
+
 from hypothesis import strategies as st
 
 from .dsl import QUERY_KINDS
@@ -307,10 +309,21 @@ def ancestor_pattern_program(draw, cfg=DEFAULT_CFG, cache_rel='cache.gz'):
     if others and draw(st.booleans()):
         root.append(['bf', draw(st.sampled_from(others)), 'f2', [], 'METADATA', True])
     root.extend(calls)
-    for _ in range(draw(st.integers(0, 2))):
-        root.insert(draw(st.integers(0, len(root))), ['q', draw(st.sampled_from(['exists', 'is_file', 'is_dir', 'list_dir'])),
-                                                        draw(st.sampled_from([F, child, ''])), 'METADATA'])
-    return {'root': root, 'funcs': funcs, 'universe': list(univ)}
+    def sprinkle(r):
+        for _ in range(draw(st.integers(0, 3))):
+            r.insert(draw(st.integers(0, len(r))), ['q', draw(st.sampled_from(['exists', 'is_file', 'is_dir', 'list_dir', 'walk'])),
+                                                      draw(st.sampled_from([q for q in (F, child, os.path.dirname(F), '') if q not in masked])), 'METADATA'])
+        if cfg.get('probe_w') and draw(st.booleans()):
+            r.append(['probe'])
+        return r
+    root = sprinkle(root)
+    prog = {'root': root, 'funcs': funcs, 'universe': list(univ)}
+    # variants of the root function that request only one of the two paths: across builds an output *file* F becomes a
+    # directory holding F/child and back (the user edits the uncached root function between builds)
+    only_f = sprinkle([['bf', F, 'f2', [], draw(st.sampled_from(cfg['cmp'])), True]])
+    only_child = sprinkle([['bf', child, draw(st.sampled_from(['f1', 'f0'])), [], draw(st.sampled_from(cfg['cmp'])), True]])
+    prog['alt_roots'] = [only_f, only_child]
+    return prog
 
 
 @st.composite
@@ -359,6 +372,9 @@ def nested_failure_program(draw, cfg=DEFAULT_CFG, cache_rel='cache.gz'):
     return {'root': root, 'funcs': funcs, 'universe': list(univ)}
 
 
-def mixed_program(cfg, cache_rel, patterns=1, general=4):
-    """General programs with a share of the directed pattern families."""
-    return st.one_of(*([program(cfg, cache_rel)] * general + [nested_failure_program(cfg, cache_rel)] * patterns))
+def mixed_program(cfg, cache_rel, patterns=1, general=4, ancestor=True):
+    """General programs with a share of the directed pattern families.  ``ancestor=False`` keeps the output paths of a
+    program prefix-free (latitude L6): to build a *file* at a path that a recorded build turned into a directory the
+    library moves the recorded outputs below it away and rebuilds them, which the C05 rule has no clause for."""
+    return st.one_of(*([program(cfg, cache_rel)] * general + [nested_failure_program(cfg, cache_rel)] * patterns +
+                       ([ancestor_pattern_program(cfg, cache_rel)] * patterns if ancestor else [])))
